@@ -91,6 +91,25 @@ def set_coefficients(mps, aseed: int):
                 a.copy_(v)
 
 
+def earlier_assignment(mps, x, aseed: int):
+    """The state a search leaves behind: ANOTHER coefficient assignment was in force, sampled by an
+    eval-mode forward, and its costs were read - before the assignment the case is about is
+    written.  Nothing of it may survive (caches keyed on the parameter object, stale samples)."""
+    import torch
+    was = mps.training
+    set_coefficients(mps, aseed + 7919)          # other values, written the other way
+    mps.eval()
+    with torch.no_grad():
+        try:
+            mps(x)
+            for n in list(mps.cost_specification.keys()) \
+                    if isinstance(mps.cost_specification, dict) else [None]:
+                mps.get_cost(n) if n is not None else mps.cost
+        except Exception:  # noqa - whatever fails here fails again, visibly, in the case proper
+            pass
+    mps.train(was)
+
+
 def mps_input(spec, xseed: int, clip: float = 1.0, batch: int = 2):
     """Inputs uniform in [-0.2*clip, 1.3*clip] so both clamps of the input quantizer are hit."""
     import torch
